@@ -480,7 +480,19 @@ func (g *Gen) genKind(k string) *Op {
 				}
 				continue
 			}
-			return &Op{K: "ready", A: gwA.Idx, D: i}
+			op := &Op{K: "ready", A: gwA.Idx, D: i}
+			if r.Chance(0.2) {
+				// somebody else tries to hand the order out: its creator, a stranger, another node
+				who := []*Actor{w.ByAddr[o.Creator], g.pickActor(w.Advs), g.pickActor(w.SPs)}[r.Intn(3)]
+				if who != nil {
+					op.A = who.Idx
+					if r.Chance(0.5) {
+						op.Prov = gwA.Idx + 1
+					}
+					op.Note = "adv:ready"
+				}
+			}
+			return op
 		}
 		return nil
 	case "store_update":
